@@ -6,6 +6,7 @@ use proptest::prelude::*;
 use serde::{Deserialize, Serialize};
 
 use crate::clock;
+use crate::ensure;
 use crate::hist::*;
 use crate::multi::*;
 use crate::props::c01::{self, BOp};
@@ -112,6 +113,9 @@ fn run_multi(c: &MultiCase) -> CaseResult {
             let upto = if matches!(op, MOp::MpSuspend(_) | MOp::BarSuspend(..)) && std::ptr::eq(fr, &out.frames[0]) { log_before } else { it.model.log.len() };
             check_tokens(&fr.rows, &it.model.log[..upto], it.cols, &ctx).map_err(|f| sig_kind(f, &it))?;
         }
+        // what was written has also been flushed: on a buffering terminal (the default stderr target is one)
+        // a line that is written but not flushed is not on the terminal yet
+        ensure!(it.vt.unflushed() == 0, "log_not_flushed", "{ctx}: the call returned with {} write(s) that were never flushed", it.vt.unflushed());
         let rows = it.vt.rows();
         let end = check_tokens(&rows, &it.model.log, it.cols, &ctx).map_err(|f| sig_kind(f, &it))?;
         if !it.model.bottom_ever {
@@ -200,7 +204,7 @@ fn multi_strategy(tier: Tier) -> BoxedStrategy<MultiCase> {
             // most cases keep every frame within the terminal height by using a tall terminal (the small
             // `rows` value only shortens it a little so that log lines scroll)
             let rows = if tiny > 0 { tiny } else { rows + 40 };
-            MultiCase { rows, cols, hz, step_ms, ops: pre, final_drops: vec![] }
+            MultiCase { rows, cols: cols as u16, hz, step_ms, ops: pre, final_drops: vec![] }
         })
         .boxed()
 }
@@ -289,6 +293,7 @@ fn run_single(c: &SingleCase) -> CaseResult {
             let upto = if matches!(op, BOp::Suspend(_)) && k == 0 { before } else { log.len() };
             check_tokens(&fr.rows, &log[..upto], cols, &ctx)?;
         }
+        ensure!(vt.unflushed() == 0, "log_not_flushed", "{ctx}: the call returned with {} write(s) that were never flushed", vt.unflushed());
         check_tokens(&vt.rows(), &log, cols, &ctx)?;
         if frames.is_empty() && matches!(op, BOp::Tick | BOp::Inc(_) | BOp::SetMessage(_) | BOp::SetPrefix(_)) {
             skipped_draw = true;
@@ -330,7 +335,7 @@ fn single_strategy(tier: Tier) -> BoxedStrategy<SingleCase> {
 fn decode_c03_multi(u: &mut FuzzInput) -> MultiCase {
     let mut c = decode_multi(u, 0);
     c.rows = 44 + u.n(10) as u8;
-    c.cols = 8 + u.n(22) as u8;
+    c.cols = 8 + u.n(22) as u16;
     c.hz = if u.n(3) == 0 { None } else { Some([1u8, 2, 20, 60, 255][u.n(4)]) };
     c.step_ms = [0u32, 0, 1, 20, 2000][u.n(4)];
     // limiter exhausted first, as in the generated scenarios
@@ -369,7 +374,7 @@ pub fn property() -> Property {
                 name: "multi",
                 rule: "MultiProgress histories (alphabet of C02 plus clock waits) on targets with refresh rate None/1/2/20/60/255 and a clock step of 0 (frozen: every limiter stays exhausted), 1, 20 or 2000 ms, each starting with one of the scenarios the statement names (non-first bar finished and dropped first, bar-level println after a reaped bar, skipped ticks while a dropped bar waits, then println/clear); after every op and at every flush each emitted token line must be on the terminal intact, once and in order; non-trivial = >=2 log lines, a draw after them, and a skipped draw or a dropped/retained bar",
                 strategy: multi_strategy,
-                cases: |t| t.pick(4_000, 800_000),
+                cases: |t| t.pick(12_000, 800_000),
                 run: run_multi,
                 signature: multi_signature,
                 essential: &["skipped_draw", "zombie_or_retained_block", "two_log_lines", "log_wraps", "frozen_clock_rate_limited", "bar_println"],
@@ -380,7 +385,7 @@ pub fn property() -> Property {
                 name: "single",
                 rule: "single-bar histories of C01 on rate-limited targets (1/3/20/255 Hz or unlimited) with clock steps 0/1/30/5000 ms and tokenised println/suspend lines; same token oracle; non-trivial = >=2 log lines, a draw after them, and a skipped draw or a println while the frame is empty",
                 strategy: single_strategy,
-                cases: |t| t.pick(4_000, 800_000),
+                cases: |t| t.pick(12_000, 800_000),
                 run: run_single,
                 signature: no_signature,
                 essential: &["skipped_draw", "println_while_frame_empty", "two_log_lines"],
